@@ -23,6 +23,10 @@ CHECKS = {
  "C01": dict(
   text="Whole-system deterministic simulation: real Server/ServerStream/Client over a simulated network (UDP, TCP interleaved, HTTP and WebSocket tunnels, plain and TLS+SRTP, server-side writer or recording client as source, readers joining/pausing/leaving) under seeded latency, chunking (down to 1-byte reads), UDP drop/dup/reorder/burst, bounded windows with receiver stalls and seeded yield-point holds; every delivered packet is checked online for identity/order/at-most-once/SSRC, and the recorded history for gap-freedom on reliable carriers.",
   note=WHOLE_NOTE, tech="deterministic simulation with fault injection: seeded schedule/fault search, history oracle", ref="3.1"),
+ "C02": dict(
+  text="Whole-system deterministic simulation with a scripted raw RTSP client: seeded request sequences (10 methods x no/right/wrong Session header, 1-2 connections, pipelining, every chunking incl. 1-byte reads, 5 application handler subsets, UDP offered or not) judged request by request against an executable model of the RFC 2326 session state machine written from the statement (success/error class, next state via ServerSession.State(), when the session ends, one response per request in order with CSeq echoed, server alive afterwards, OnSessionClose exactly once); and an expiry workload on the fake clock (shipped and seeded timeouts): a real Client left running as live peer, fully silent scripted peers, keep-alive-only and media/RTCP-only peers over UDP and TCP, with 'never expired' / 'closed within timeout + one check period + injected-delay budget' oracles.",
+  note=WHOLE_NOTE + " The model is silent (either outcome accepted) where RFC 2326 and common server practice differ or the statement is not explicit; the list is in the evidence assumptions.",
+  tech="deterministic simulation: scripted-peer sequences vs executable reference model; simulated-time expiry", ref="3.2"),
  "C13": dict(
   text="Whole-system deterministic simulation with Server.Close, ServerStream.Close and Client.Close (from another goroutine) landing at seeded instants between any two protocol steps - idle, mid-handshake, playing, recording, paused, with a writer running, with peers that stopped reading (bounded window) or vanished - and seeded holds at ~40 yield sites on the shutdown paths; oracles: Close latency in simulated time, socket census of the closed object's node, goroutines attributed to the closed object (creator chains) and a complete end-of-run census, open/close notification balance and no packet/request callback after OnSessionClose (global sequence numbers).",
   note=WHOLE_NOTE, tech="deterministic simulation with fault injection: close-point and shutdown-interleaving search, census + callback-history oracle", ref="3.8"),
